@@ -25,7 +25,7 @@ META = {
                   'the process never dies in the logging code — PROVIDED fmt.Sprintf("%v") returns on every value (fmt is a parameter of the model). '
                   'SprintV never consults fmt for nil pointers / nil interfaces; CallSlice-on-variadic / Call-otherwise forwards every deliverable '
                   'argument vector unchanged.',
-    'level_note': 'Partial because fmt, reflect.MakeFunc/Call and the Go ABI are modelled (reflect by its documented argument checks), not verified; '
+    'level_note': 'Hypotheses of the theorems: fmt returns on every value (F13 otherwise), the user String()/Error() methods fmt runs record nothing and do not call the mock (F27 otherwise), the mocked function is not in the hand-collected list loggerCallees (F14/F15 otherwise); one mocker per environment, sequential callers, panics as classes (two-mocker lanes and panic-value kinds are observed only). Partial because fmt, reflect.MakeFunc/Call and the Go ABI are modelled (reflect by its documented argument checks), not verified; '
                   'values are trees of tokens, so cyclic heaps exist only as opaque tokens. Known finding F13: a slice/map cycle in an argument or result '
                   'makes fmt recurse without bound, only with debug open (Findings/C19F13.lean is the counter-example to the full statement). '
                   'The model is tied to the code by differential execution (tie X), bounded by the generators whose distribution is in the evidence.',
@@ -34,13 +34,20 @@ META = {
 CFGS = ['off', 'debug', 'trace', 'env']
 INT_T = ['f2', 'fv', 'fm', 'fa', 'ms', 'mv', 'ia', 'iv']
 PA_T = ['fp', 'ip']
-SHAPES = {'ow': '', 'ox': 'I', 'oz': 'I', 'it': 'I', 'f2': 'IS', 'fv': 'V', 'fm': 'SV', 'fp': 'PA', 'fa': 'A', 'ms': 'IS', 'mv': 'SV', 'ia': 'IS', 'iv': 'SV', 'ip': 'PA'}
+SHAPES = {'f0': 'I', 'rs': 'IS', 'ow': '', 'ox': 'I', 'oz': 'I', 'it': 'I', 'f2': 'IS', 'fv': 'V', 'fm': 'SV', 'fp': 'PA', 'fa': 'A', 'ms': 'IS', 'mv': 'SV', 'ia': 'IS', 'iv': 'SV', 'ip': 'PA'}
 WHEN_OK = ['f2', 'ms', 'ia', 'fv']          # When(..) only where C04's finding F6 (variadic expansion of fixed args) cannot interfere
 INTS = ['-3', '-1', '0', '1', '2', '5', '7', '42', '1000000']
 STRS = ['s', 'sa', 'sab', 'sxyz', 's0']
 NODES = ['nil', 'n0', 'n1', 'n2', 'n3']
 ANY_SAFE = ['nil', 'i5', 'i-2', 'i0', 'tab', 't', 'pn0', 'pn1', 'pn2', 'pn3', 'tn'] + [f'z{k}' for k in range(16)]
 ANY_CYC = ['z20', 'z21', 'z22', 'z23']
+USER_METHOD = ['z16', 'z17']          # String() / Error() with an observable effect
+USER_RE = re.compile(r'\bz1[678]\b')
+REENT_RE = re.compile(r'\bz18\b')     # String() makes one nested call of the mocked function: outside the model (render cannot call back)
+NEST_RE = re.compile(r'!re\{.*?\}!')
+F27_KEY = 'F27-c19-fmt-runs-user-methods'
+# how a process in unbounded recursion dies: stack limit, or the collector tripping over the runaway stack first
+DEATH_BY_RECURSION = ('CRASH:stack-overflow', 'CRASH:fatal')
 CYC_RE = re.compile(r'\bz2[0-3]\b')
 NOHOME = '@nohome '
 F13_KEY = 'F13-fmt-slice-map-cycle-debug-only'
@@ -108,33 +115,34 @@ def gen_cb(rng, tgt):
 
 
 def gen_scenario(rng, tgt, malformed=False, cyc=False):
-    """One scenario body (ops joined by ' ; ').  After an Apply no Return/When/Returns until the next Reset
-    (C12's finding F7 decides what that does); When only on targets in WHEN_OK."""
+    """One scenario body (ops joined by ' ; '): Apply callbacks and Return/When/Returns stubs mixed freely on one mocker
+    (Apply discards an earlier When, a later Return builds a new one), calls in between, Reset, switches flipped in the middle.
+    When only on targets in WHEN_OK."""
     ops = []
     if rng.chance(1, 4):
         ops.append(gen_call(rng, tgt, cyc=cyc))
     for _phase in range(rng.choice([1, 1, 2, 3])):
         pats = []
-        if rng.chance(1, 2):
-            for _ in range(rng.choice([1, 1, 2])):
-                ops.append('apply ' + gen_cb(rng, tgt))
-                for _ in range(rng.choice([1, 2, 3])):
-                    ops.append(gen_call(rng, tgt, cyc=cyc))
-        else:
-            for _ in range(rng.choice([1, 2, 3])):
-                kinds = ['ret', 'rets'] + (['when', 'when'] if tgt in WHEN_OK else [])
-                k = rng.choice(kinds)
-                bad = malformed and rng.chance(1, 2)
-                if k == 'ret':
-                    ops.append('ret ' + gen_result(rng, tgt, cyc and rng.chance(1, 2), bad))
-                elif k == 'rets':
-                    ops.append('rets ' + '|'.join(gen_result(rng, tgt, False, bad and i == 1) for i in range(rng.choice([1, 2, 3, 4]))))
+        for _ in range(rng.choice([1, 2, 2, 3, 4])):
+            kinds = ['apply', 'apply', 'apply', 'ret', 'rets'] + (['when', 'when'] if tgt in WHEN_OK else [])
+            k = rng.choice(kinds)
+            bad = malformed and rng.chance(1, 2)
+            if k == 'apply':
+                if malformed and rng.chance(1, 3):
+                    ops.append('applybad')            # Apply(42)
                 else:
-                    p = gen_pats(rng, tgt, bad)
-                    pats.append(p)
-                    ops.append(f'when {p} {gen_result(rng, tgt, False, malformed and rng.chance(1, 3))}')
-                for _ in range(rng.choice([0, 1, 2, 4])):
-                    ops.append(gen_call(rng, tgt, pats, cyc=cyc))
+                    ops.append('apply ' + gen_cb(rng, tgt))
+                    pats = []
+            elif k == 'ret':
+                ops.append('ret ' + gen_result(rng, tgt, cyc and rng.chance(1, 2), bad))
+            elif k == 'rets':
+                ops.append('rets ' + '|'.join(gen_result(rng, tgt, False, bad and i == 1) for i in range(rng.choice([1, 2, 3, 4]))))
+            else:
+                p = gen_pats(rng, tgt, bad)
+                pats.append(p)
+                ops.append(f'when {p} {gen_result(rng, tgt, False, malformed and rng.chance(1, 3))}')
+            for _ in range(rng.choice([0, 1, 2, 3])):
+                ops.append(gen_call(rng, tgt, pats, cyc=cyc))
         ops.append('cancel')
         if rng.chance(1, 3):
             ops.append(gen_call(rng, tgt, cyc=cyc))
@@ -142,6 +150,39 @@ def gen_scenario(rng, tgt, malformed=False, cyc=False):
         for _ in range(rng.choice([1, 2, 3])):
             ops.insert(rng.below(len(ops) + 1), 'dbg ' + rng.choice(['on', 'off', 'tron', 'troff']))
     return f'{tgt} ' + ' ; '.join(ops)
+
+
+def gen_reentrant(rng):
+    """an argument whose String() calls the mocked function once more while the debug line is rendered (z18)"""
+    t = rng.choice(['fp', 'ip'])
+    ops = ['apply echo'] + [f'call {rng.choice(NODES)},{rng.choice(["z18", "z18", "i5", "tab"])}' for _ in range(rng.choice([2, 3, 4]))] + ['cancel']
+    if rng.chance(1, 3):
+        ops.insert(rng.below(len(ops)), 'dbg ' + rng.choice(['on', 'off', 'tron']))
+    return f'{t} ' + ' ; '.join(ops)
+
+
+def gen_void(rng):
+    """a function without results (f0): callbacks, Return(), calls"""
+    ops = []
+    for _ in range(rng.choice([1, 2])):
+        for _ in range(rng.choice([1, 2, 3])):
+            ops.append(rng.choice(['apply sum%d' % rng.below(5), 'apply sum%d' % rng.below(5), 'apply pan%d' % rng.below(3), 'apply nilp', 'ret -', 'ret -']))
+            ops += ['call ' + rng.choice(INTS) for _ in range(rng.choice([1, 2]))]
+        ops.append('cancel')
+    if rng.chance(1, 3):
+        ops.insert(rng.below(len(ops) + 1), 'dbg ' + rng.choice(['on', 'off', 'tron', 'troff']))
+    return 'f0 ' + ' ; '.join(ops)
+
+
+def gen_usermethod(rng):
+    """values whose String()/Error() method records an event (finding F27): as arguments and as results"""
+    t = rng.choice(['fa', 'fp', 'ip', 'fp'])
+    v = lambda: rng.choice(USER_METHOD)
+    if t == 'fa':
+        ops = [rng.choice(['apply sum1', 'ret 5']), 'call ' + v(), 'call ' + v(), 'cancel']
+    else:
+        ops = [rng.choice(['apply echo', 'apply retn', f'ret n0,{v()}', f'ret nil,{v()}']), f'call {rng.choice(NODES)},{v()}', f'call nil,{rng.choice(ANY_SAFE)}', 'cancel']
+    return f'{t} ' + ' ; '.join(ops)
 
 
 SV_TOKS = ['I:5', 'I:-3', 'S:sab', 'S:s', 'P:nil', 'P:n0', 'A:nil', 'A:i5', 'A:tab', 'A:tn', 'E:nil', 'E:sx', 'V:1.2', 'V:-', 'V:7', 'M:', 'Q:nil', 'Q:x']
@@ -154,6 +195,12 @@ def gen_streams(tier, rng, scale=1):
     tg = INT_T + PA_T + ['fa', 'fp', 'ip', 'fv', 'mv', 'iv']      # weight the value-heavy and variadic targets
     for i in range(n):
         bodies.append(gen_scenario(r, r.choice(tg), malformed=(i % 10 == 9)))
+    r = rng.fork('void')
+    bodies += [gen_void(r) for _ in range((40 if tier == 'quick' else 800) * scale)]
+    r = rng.fork('usermethod')
+    bodies += [gen_usermethod(r) for _ in range((12 if tier == 'quick' else 200) * scale)]
+    r = rng.fork('reentrant')
+    bodies += ['fp apply echo ; call n1,z18 ; call n2,tab ; cancel'] + [gen_reentrant(r) for _ in range((8 if tier == 'quick' else 100) * scale)]
     r = rng.fork('nohome')
     hb = list(NOHOME_CORPUS)
     for i in range((120 if tier == 'quick' else 1500) * scale):
@@ -186,7 +233,7 @@ def gen_streams(tier, rng, scale=1):
         if r.chance(1, 3):
             o.insert(r.below(len(o)), 'dbg ' + r.choice(['on', 'off', 'tron', 'troff']))
         risky.append(t + ' ' + ' ; '.join(o))
-    risky += ['lib ' + f for f in LIB_FUNCS + TIME_NOW]
+    risky += ['lib ' + f for f in LIB_FUNCS + TIME_NOW + LIB_MORE]
     r = rng.fork('it')
     for i in range((3 if tier == 'quick' else 12) * scale):
         o = []
@@ -207,7 +254,13 @@ LIB_FUNCS = ['fmt.Print', 'fmt.Println', 'fmt.Fprint', 'fmt.Sprint', 'fmt.Sprint
 
 TIME_NOW = ['time.Now/func', 'time.Now/name', 'time.Now/ret', 'time.Now/as']   # every handle kind; debug.go:14 must recognise all of them
 
+LIB_MORE = ['byname.func', 'byname.method', 'two.nested', 'two.timenow', 'sites%d' % 600]
+
 CORPUS_RISKY = [
+    'rs apply sum1 ; call 1,s ; cancel',               # F27: the receiver's String() calls the mocked method
+    'rs ret 5 ; call 2,sa ; cancel',
+    'rs dbg off ; apply sum1 ; call 1,s ; cancel',      # applied while closed: never wrapped
+
     'ow call - ; apply org1000 ; call - ; cancel ; call -',            # Origin placeholder of a leaf whose first instructions are RIP-relative
     'ox apply org5 ; call 3 ; call -1 ; cancel ; call 2',
     'oz call 1 ; apply org7 ; call 42 ; apply sum1 ; call 2 ; cancel',
@@ -244,15 +297,21 @@ def erase_T(body, T):
     if T is None or not T.startswith('T='):
         return None
     ops = body[len(NOHOME) if body.startswith(NOHOME) else 0:].split(' ', 1)[1].split(' ; ')
+    T, _, ptags = T.partition(' P=')
     toks = T[2:].split('|')
     if len(toks) != len(ops):
         return None
-    return 'T=' + '|'.join(t for o, t in zip(ops, toks) if not o.startswith('dbg '))
+    return 'T=' + '|'.join(t for o, t in zip(ops, toks) if not o.startswith('dbg ')) + ' P=' + ptags
 
 
 def corpus():
     """hand-written scenarios that run first: one per mechanism of the property's record"""
     return [
+        'f2 ret 9 ; call 1,s ; applybad ; call 1,s ; apply sum1 ; call 1,s ; ret 4 ; call 1,s ; cancel',
+        'ia apply sum1 ; applybad ; call 1,sa ; cancel',
+        'f0 call 3 ; apply sum1 ; call 3 ; ret - ; call 4 ; apply pan1 ; call 5 ; cancel ; call 6',
+        'fa apply sum1 ; call z16 ; call z17 ; cancel',
+        'fp ret n0,z17 ; call nil,z16 ; cancel',
         'f2 call 1,sab ; apply sum5 ; call 1,sab ; cancel ; ret 9 ; call 2,s ; cancel ; call 1,s',
         'fv ret 7 ; call 1,2,3 ; call - ; when 1,2 8 ; call 1,2 ; call 1',
         'fv apply sum1 ; call - ; call 1 ; call 1,2,3,5,7',
@@ -273,8 +332,18 @@ def corpus():
 
 # ------------------------------------------------------------------ running
 
+NSITES = 600
+
+
 def build_probe():
-    b, err = C.overlay_build('c19', '', {'zz_verif_c19_test.go': os.path.join(C.HARNESS, 'c19', 'probe_test.go')}, C.helper_pkgs())
+    # generated: NSITES one-line call sites of one mockable function (distinct source positions for the logger's caller lookup)
+    gen = os.path.join(C.BUILD, 'c19_sites_gen_test.go')
+    src = 'package mocker\n\n// GENERATED by checks/C19.py\nvar c19Sites = []func() string{\n' + \
+          ''.join('\tfunc() string { return c19LibTarget("x") },\n' for _ in range(NSITES)) + '}\n'
+    if not os.path.exists(gen) or open(gen).read() != src:
+        open(gen, 'w').write(src)
+    b, err = C.overlay_build('c19', '', {'zz_verif_c19_test.go': os.path.join(C.HARNESS, 'c19', 'probe_test.go'),
+                                         'zz_verif_c19_sites_test.go': gen}, C.helper_pkgs())
     if b is None:
         raise C.Infra('probe c19 does not build against the current tree:\n' + err[-3000:])
     return b
@@ -292,19 +361,21 @@ def crash_class(text):
     return 'exit'
 
 
-def run_cfg(binary, cfg, ops_path, n, idxs, tag, maxstack=None, timeout=600, nohome=False):
+def run_cfg(binary, cfg, ops_path, n, idxs, tag, maxstack=None, timeout=900, nohome=False):
     """Run the probe for one configuration over lines `idxs` of the ops file, restarting after a crash.
     Returns {line index: observation}; a line that killed the process gets 'CRASH:<class>'."""
     res = {}
     start = 0
+    retried_timeout = False
     todo = sorted(idxs)
-    for _ in range(len(todo) + 1):
+    for _ in range(len(todo) + 2):
         outp = os.path.join(C.BUILD, f'{tag}.{cfg}.impl')
         if os.path.exists(outp):
             os.remove(outp)
         env = C.goenv({'VERIF_OPS': ops_path, 'VERIF_OUT': outp, 'VERIF_SEED': str(C.seed()), 'VERIF_C19_CFG': cfg,
                        'VERIF_C19_LOG': os.path.join(C.BUILD, f'{tag}.{cfg}.log'), 'VERIF_START': str(start)})
-        env.pop('GOOM_DEBUG', None)
+        for k in [k for k in env if k.startswith('GOOM_')]:     # no goom knob leaks in from the caller's environment
+            env.pop(k)
         if cfg == 'env':
             env['GOOM_DEBUG'] = '1'
         if nohome:
@@ -329,7 +400,12 @@ def run_cfg(binary, cfg, ops_path, n, idxs, tag, maxstack=None, timeout=600, noh
         if not missing:
             raise C.Infra(f'probe ({cfg}) failed rc={rc} after answering every line:\n{text[-1500:]}')
         bad = missing[0]
-        res[bad] = 'CRASH:' + crash_class(text)
+        cls = crash_class(text)
+        if cls == 'timeout' and not retried_timeout:
+            retried_timeout = True        # a loaded machine: run again from the same line ONCE before believing it
+            start = bad
+            continue
+        res[bad] = 'CRASH:' + cls
         start = bad + 1
         if not [i for i in todo if i >= start]:
             return res
@@ -357,6 +433,9 @@ def execute(bodies, risky, sv, tag='c19'):
     ops_path = os.path.join(C.BUILD, f'{tag}.ops')
     open(ops_path, 'w').write('\n'.join(ops) + '\n')
     binary = build_probe()
+    lf = os.path.join(C.BUILD, 'home', 'logs', 'goom-mocker.log')      # goom appends to it for ever
+    if os.path.exists(lf) and os.path.getsize(lf) > (64 << 20):
+        open(lf, 'w').close()
     impl = [None] * len(ops)
     errs = []
 
@@ -385,7 +464,7 @@ def execute(bodies, risky, sv, tag='c19'):
             for idx, cfg in chunk:
                 one = os.path.join(C.BUILD, f'{tag}.risky{k}.ops')
                 open(one, 'w').write('\n' * idx + ops[idx] + '\n')
-                r = run_cfg(binary, cfg, one, len(ops), [idx], f'{tag}.risky{k}', maxstack=64 << 20, timeout=120)
+                r = run_cfg(binary, cfg, one, len(ops), [idx], f'{tag}.risky{k}', maxstack=64 << 20, timeout=90)   # typical 1-3 s; a hang is re-run once (run_cfg)
                 impl[idx] = r.get(idx)
         except Exception as e:  # noqa: BLE001
             errs.append(e)
@@ -413,20 +492,37 @@ def oracle(body, g, impl):
     alive = {T[c] for c in CFGS if c not in crashed}
     if not crashed and len(alive) == 1:
         return None
+    # finding F27, narrowly: a value with a recording String()/Error() is passed and the transcripts differ ONLY in those records
+    if not crashed and USER_RE.search(body) and len({strip_user(t) for t in alive}) == 1:
+        return (f'scenario `{body}`: ' + '; '.join(f'{c}: {T[c]}' for c in CFGS), F27_KEY)
     # finding F13, narrowly: the scenario carries a slice/map cycle token, every death is a stack overflow, it happens only where
     # debug logging can be open (a debug/trace/env process, or after an explicit `dbg on|tron`), and the survivors agree
     key = None
     opens = ' dbg on' in body or ' dbg tron' in body
-    if crashed and CYC_RE.search(body) and len(alive) <= 1 and all(T[c] == 'CRASH:stack-overflow' and (c != 'off' or opens) for c in crashed):
+    if crashed and CYC_RE.search(body) and len(alive) <= 1 and all(T[c] in DEATH_BY_RECURSION and (c != 'off' or opens) for c in crashed):
         key = F13_KEY
-    if crashed and body.split()[0] == 'it' and len(alive) <= 1 and all(T[c] == 'CRASH:stack-overflow' and (c != 'off' or opens) for c in crashed):
+    if crashed and body.split()[0] == 'rs' and len(alive) <= 1 and all(T[c] in DEATH_BY_RECURSION and (c != 'off' or opens) for c in crashed):
+        key = F27_KEY      # … or the receiver's String() re-enters the mocked method
+    if crashed and body.split()[0] == 'it' and len(alive) <= 1 and all(T[c] in DEATH_BY_RECURSION and (c != 'off' or opens) for c in crashed):
         key = F14_KEY
     what = f'scenario `{body}`: ' + '; '.join(f'{c}: {T[c]}' for c in CFGS)
     return (what, key)
 
 
+def strip_user(t):
+    return NEST_RE.sub('', t).replace('!str', '').replace('!err', '')
+
+
+P_RE = re.compile(r' P=\S+')
+
+
 def norm_for_model(impl_obs, model_obs):
-    """A process that died is compared with the model's prediction of death."""
+    """A process that died is compared with the model's prediction of death.  The panic-value kinds (P=) are an
+    observation of the implementation only (the model's panics are classes)."""
+    if impl_obs is not None:
+        impl_obs = P_RE.sub('', impl_obs, count=1)
+    if model_obs == 'bad-op' and impl_obs is not None and impl_obs != 'bad-op':
+        return None        # a line the model does not cover (caller decides whether that is allowed)
     if impl_obs is not None and impl_obs.startswith('CRASH:') and model_obs is not None and '->CRASH' in model_obs:
         return True
     return impl_obs == model_obs
@@ -451,7 +547,8 @@ def assess(ops, impl, model, groups, out, report=True):
         for cfg in CFGS:
             e, tw = erase_T(body, T_of(impl[g[cfg]])), T_of(impl[byb[twin][cfg]])
             if e is not None and tw is not None and tw.startswith('T=') and e != tw:
-                bad.append((body, f'scenario `{body}` in configuration {cfg}: with its logging switches {e} ; with the switch operations removed {tw}', None))
+                k = F27_KEY if USER_RE.search(body) and strip_user(e) == strip_user(tw) else None
+                bad.append((body, f'scenario `{body}` in configuration {cfg}: with its logging switches {e} ; with the switch operations removed {tw}', k))
                 break
     bad.sort(key=lambda b: b[2] is not None)
     for body, what, key in (bad[:4] + [b for b in bad[4:] if b[2] is not None][:2]) if report else []:
@@ -460,7 +557,10 @@ def assess(ops, impl, model, groups, out, report=True):
     diffs = []
     if model is not None:
         for i, op in enumerate(ops):
-            if not norm_for_model(impl[i], model[i] if i < len(model) else None):
+            ok = norm_for_model(impl[i], model[i] if i < len(model) else None)
+            if ok is None and REENT_RE.search(op):
+                continue       # bounded re-entry through a user String(): judged by the oracle only
+            if not ok:
                 diffs.append((i, op, impl[i], model[i] if i < len(model) else None))
     return bad, diffs
 
@@ -514,6 +614,11 @@ def run(tier):
     nontrivial = len({(body.split()[0], T_of(impl[g['debug']])) for body, g, _ in groups
                       if impl[g['debug']] and ' L=' in impl[g['debug']] and (int(impl[g['debug']].rsplit('L=', 1)[1]) > 0 or ' W=-' not in impl[g['debug']])})
     crashes = sum(1 for o in impl if o and o.startswith('CRASH'))
+    # floors: a lane that silently ran nothing is a machinery error, not a pass
+    lanes = {'main': sum(1 for _, g, rk in groups if rk is False and impl[g['off']]), 'unopenable-log': sum(1 for _, g, rk in groups if rk == 'h' and impl[g['off']]),
+             'isolated': sum(1 for _, g, rk in groups if rk is True and impl[g['off']]), 'sprintv': sum(1 for i, o in enumerate(ops) if o.startswith('c19.sv') and impl[i])}
+    if min(lanes.values()) == 0 or wrapped_runs == 0 or logged == 0:
+        raise C.Infra(f'a lane produced nothing (lanes={lanes}, wrapper runs={wrapped_runs}, logged lines={logged}): the probe lost its configuration switch')
     out.coverage = {
         'obligations': proof['obligations'], 'discharged': proof['discharged'],
         'checker_cmd': ' ; '.join(proof['cmds']),
